@@ -169,3 +169,194 @@ Proof. vm_compute. reflexivity. Qed.
 Lemma new_locks :
   snd (run k_prop true rl0 five_then_one) = [EvalFail; EvalFail; EvalFail; EvalFail; EvalFail; RefusedLockout].
 Proof. vm_compute. reflexivity. Qed.
+
+(* ---- cleanup passes interleaved with attempts; the counter is bounded (no uint32 wrap) ---- *)
+Section P.
+Variable k : consts.
+Variable esc : bool.
+
+Lemma cleanup_never s now : cleanup k purge_never s now = s.
+Proof. reflexivity. Qed.
+
+(* a cleanup pass of the current code is invisible to the throttle *)
+Lemma run_ops_never : forall ops s,
+  fst (run_ops k esc purge_never s ops) = fst (run k esc s (attempts_of ops)) /\
+  flat_map (fun x => match x with Some o => [o] | None => [] end) (snd (run_ops k esc purge_never s ops))
+    = snd (run k esc s (attempts_of ops)).
+Proof.
+  induction ops as [|o r IH]; intros s; [simpl; auto|].
+  destruct o as [t v|now]; cbn [run_ops step_op attempts_of flat_map app].
+  - destruct (attempt k esc s t v) as [s1 o1] eqn:A. specialize (IH s1).
+    destruct (run_ops k esc purge_never s1 r) as [s2 xs]. cbn [run]. rewrite A.
+    fold (attempts_of r). destruct (run k esc s1 (attempts_of r)) as [s3 os]. cbn [fst snd flat_map app] in *.
+    destruct IH as [I1 I2]. split; [exact I1|]. rewrite I2. reflexivity.
+  - rewrite cleanup_never. specialize (IH s). destruct (run_ops k esc purge_never s r) as [s2 xs].
+    cbn [fst snd flat_map app] in *. exact IH.
+Qed.
+
+(* the stored counter is the ghost streak, whatever cleanup passes are interleaved *)
+Lemma ghost_agree_step s g t v :
+  fail_count s = streak g -> last_fail s = g_last_fail g ->
+  let (s', o) := attempt k esc s t v in
+  fail_count s' = streak (ghost_step k g t o) /\ last_fail s' = g_last_fail (ghost_step k g t o).
+Proof.
+  intros H1 H2. unfold attempt. destruct (t <? last_check s + min_secs k * SEC); [simpl; auto|].
+  cbn [lockout last_fail fail_count]. destruct (t <? lockout s); [simpl; auto|].
+  destruct v; cbn [ghost_step streak g_last_fail fail_count last_fail]; auto.
+  rewrite H1, H2. auto.
+Qed.
+
+Lemma ghost_agree : forall ops s g,
+  fail_count s = streak g -> last_fail s = g_last_fail g ->
+  let r := run_ops k esc purge_never s ops in
+  fail_count (fst r) = streak (ghost_run k g ops (snd r)) /\
+  last_fail (fst r) = g_last_fail (ghost_run k g ops (snd r)).
+Proof.
+  induction ops as [|o r IH]; intros s g H1 H2; [simpl; auto|].
+  destruct o as [t v|now]; cbn [run_ops step_op].
+  - pose proof (ghost_agree_step s g t v H1 H2) as A. destruct (attempt k esc s t v) as [s1 o1].
+    destruct A as [A1 A2]. specialize (IH s1 _ A1 A2).
+    destruct (run_ops k esc purge_never s1 r) as [s2 xs]. cbn [fst snd ghost_run] in *. exact IH.
+  - rewrite cleanup_never. specialize (IH s g H1 H2).
+    destruct (run_ops k esc purge_never s r) as [s2 xs]. cbn [fst snd ghost_run] in *. exact IH.
+Qed.
+
+Lemma locked_run_ops : forall ops s,
+  (forall t v, In (Att t v) ops -> t < lockout s) ->
+  Forall (fun x => unevaluated x = true) (snd (run_ops k esc purge_never s ops)) /\
+  lockout (fst (run_ops k esc purge_never s ops)) = lockout s.
+Proof.
+  induction ops as [|o r IH]; intros s H; [simpl; auto|].
+  destruct o as [t v|now]; cbn [run_ops step_op].
+  - pose proof (locked_attempt k esc s t v (H t v (or_introl eq_refl))) as L.
+    destruct (attempt k esc s t v) as [s1 o]. destruct L as [L1 [L2 _]].
+    assert (H1 : forall t' v', In (Att t' v') r -> t' < lockout s1).
+    { intros t' v' Hin. rewrite L2. apply (H t' v'). right. exact Hin. }
+    specialize (IH s1 H1). destruct (run_ops k esc purge_never s1 r) as [s2 os]. cbn [fst snd] in *.
+    destruct IH as [I1 I2]. split; [constructor; [simpl; rewrite L1; reflexivity|assumption]|]. rewrite I2. exact L2.
+  - rewrite cleanup_never.
+    assert (H1 : forall t' v', In (Att t' v') r -> t' < lockout s) by (intros t' v' Hin; apply (H t' v'); right; exact Hin).
+    specialize (IH s H1). destruct (run_ops k esc purge_never s r) as [s2 os]. cbn [fst snd] in *.
+    destruct IH as [I1 I2]. split; [constructor; [reflexivity|assumption]|exact I2].
+Qed.
+End P.
+
+(* history form of the lock-out statement: any history of attempts and cleanup passes (at any
+   times) from the empty entry; whenever an evaluated failure brings the number of consecutive
+   failures (counted by the ghost, which does not see the entry) to every*n, everything tried
+   before t + n hours is refused unevaluated, whatever cleanup passes follow *)
+Theorem lockout_history k pre t v post n :
+  0 < every k -> 0 < n ->
+  let r1 := run_ops k true purge_never rl0 pre in
+  let g1 := ghost_run k ghost0 pre (snd r1) in
+  let a := attempt k true (fst r1) t v in
+  snd a = EvalFail -> streak (ghost_step k g1 t EvalFail) = every k * n ->
+  (forall t2 v2, In (Att t2 v2) post -> t2 < t + n * HOUR) ->
+  lockout (fst a) = t + n * HOUR /\
+  Forall (fun x => unevaluated x = true) (snd (run_ops k true purge_never (fst a) post)).
+Proof.
+  intros Hev Hn r1 g1 a Ha Hs Hpost.
+  destruct (ghost_agree k true pre rl0 ghost0 eq_refl eq_refl) as [G1 G2]. fold r1 in G1, G2. fold g1 in G1, G2.
+  pose proof (ghost_agree_step k true (fst r1) g1 t v G1 G2) as A. fold a in A.
+  destruct a as [s' o] eqn:E. cbn [fst snd] in *. subst o. destruct A as [A1 _].
+  rewrite Hs in A1.
+  destruct (lockout_holds k (fst r1) t v s' n [] Hev Hn E A1 ltac:(intros ? ? []))  as [L _].
+  split; [exact L|]. apply locked_run_ops. intros t2 v2 Hin. rewrite L. apply (Hpost t2 v2 Hin).
+Qed.
+
+(* ---- the counter stays small: after `every*(reset_hours+1)` consecutive failures the lock-out
+   is longer than the quiet period that restarts the count ---- *)
+Definition cnt_inv (k : consts) (s : rl) : Prop :=
+  0 <= fail_count s <= every k * (reset_hours k + 1) /\
+  (0 < fail_count s -> fail_count s mod every k = 0 -> lockout s = last_fail s + (fail_count s / every k) * HOUR).
+
+Lemma cnt_inv_attempt k s t v :
+  0 < every k -> 0 <= reset_hours k -> cnt_inv k s -> cnt_inv k (fst (attempt k true s t v)).
+Proof.
+  intros Hev Hr [[I0 I1] I2]. unfold attempt.
+  destruct (t <? last_check s + min_secs k * SEC); [split; auto|].
+  cbn [lockout last_fail fail_count].
+  destruct (t <? lockout s) eqn:L; [split; auto|]. apply Z.ltb_ge in L.
+  destruct v; cbn [fst].
+  - split; cbn [fail_count]; [nia|lia].
+  - split; auto.
+  - destruct (last_fail s + reset_hours k * HOUR <? t) eqn:R.
+    + split; cbn [fail_count lockout last_fail].
+      * nia.
+      * intros _ Hm. rewrite Z.add_0_l in *. cbn [andb]. apply Z.eqb_eq in Hm. rewrite Hm. reflexivity.
+    + apply Z.ltb_ge in R. split; cbn [fail_count lockout last_fail].
+      * assert (fail_count s <> every k * (reset_hours k + 1)).
+        { intros E. assert (Hm : fail_count s mod every k = 0) by (rewrite E, Z.mul_comm; apply Z_mod_mult).
+          assert (Hp : 0 < fail_count s) by nia.
+          specialize (I2 Hp Hm). rewrite E, (Z.mul_comm (every k)), Z_div_mult in I2 by lia.
+          unfold HOUR, SEC in *. nia. }
+        lia.
+      * intros _ Hm. cbn [andb]. apply Z.eqb_eq in Hm. rewrite Hm. reflexivity.
+Qed.
+
+Lemma cnt_inv_rl0 k : 0 < every k -> 0 <= reset_hours k -> cnt_inv k rl0.
+Proof. intros. split; simpl; [nia|lia]. Qed.
+
+Theorem count_bounded k : 0 < every k -> 0 <= reset_hours k -> forall ops s, cnt_inv k s ->
+  cnt_inv k (fst (run_ops k true purge_never s ops)) .
+Proof.
+  intros Hev Hr. induction ops as [|o r IH]; intros s I; [exact I|].
+  destruct o as [t v|now]; cbn [run_ops step_op].
+  - pose proof (cnt_inv_attempt k s t v Hev Hr I) as A. destruct (attempt k true s t v) as [s1 o1]. cbn [fst] in A.
+    specialize (IH s1 A). destruct (run_ops k true purge_never s1 r). exact IH.
+  - rewrite cleanup_never. specialize (IH s I). destruct (run_ops k true purge_never s r). exact IH.
+Qed.
+
+Lemma attempt32_eq k s t v :
+  0 < every k -> 0 <= reset_hours k -> every k * (reset_hours k + 1) < W32 -> cnt_inv k s ->
+  attempt32 k true s t v = attempt k true s t v.
+Proof.
+  intros Hev Hr Hw I. pose proof (cnt_inv_attempt k s t v Hev Hr I) as A. destruct I as [[I0 I1] _].
+  unfold attempt32, attempt in *.
+  destruct (t <? last_check s + min_secs k * SEC); [reflexivity|].
+  cbn [lockout last_fail fail_count] in *. destruct (t <? lockout s); [reflexivity|].
+  destruct v; try reflexivity. cbn [fst] in A. destruct A as [[A0 A1] _]. cbn [fail_count] in A0, A1.
+  rewrite Z.mod_small by lia. reflexivity.
+Qed.
+
+Theorem run_ops32_eq k : 0 < every k -> 0 <= reset_hours k -> every k * (reset_hours k + 1) < W32 ->
+  forall ops s, cnt_inv k s -> run_ops32 k true purge_never s ops = run_ops k true purge_never s ops.
+Proof.
+  intros Hev Hr Hw. induction ops as [|o r IH]; intros s I; [reflexivity|].
+  destruct o as [t v|now]; cbn [run_ops32 run_ops step_op32 step_op].
+  - rewrite (attempt32_eq k s t v Hev Hr Hw I).
+    pose proof (cnt_inv_attempt k s t v Hev Hr I) as A. destruct (attempt k true s t v) as [s1 o1]. cbn [fst] in A.
+    rewrite (IH s1 A). reflexivity.
+  - rewrite cleanup_never, (IH s I). reflexivity.
+Qed.
+
+(* users *)
+Lemma run_users_ops_proj k esc pol u : forall ops m,
+  fst (run_users_ops k esc pol m ops) u = fst (run_ops k esc pol (m u) (uops_of u ops)).
+Proof.
+  induction ops as [|o r IH]; intros m; [reflexivity|].
+  destruct o as [u1 t v|now]; cbn [run_users_ops uops_of flat_map].
+  - destruct (attempt k esc (m u1) t v) as [s1 o] eqn:A.
+    specialize (IH (upd m u1 s1)). destruct (run_users_ops k esc pol (upd m u1 s1) r) as [m2 os]. cbn [fst] in *.
+    rewrite IH. unfold upd at 1. destruct (N.eqb u1 u) eqn:E.
+    + apply N.eqb_eq in E. subst u1. rewrite N.eqb_refl. cbn [app run_ops step_op]. rewrite A.
+      fold (uops_of u r). destruct (run_ops k esc pol s1 (uops_of u r)). reflexivity.
+    + rewrite N.eqb_sym, E. reflexivity.
+  - specialize (IH (fun x => cleanup k pol (m x) now)).
+    destruct (run_users_ops k esc pol (fun x => cleanup k pol (m x) now) r) as [m2 os]. cbn [fst app run_ops step_op] in *.
+    rewrite IH. fold (uops_of u r). destruct (run_ops k esc pol (cleanup k pol (m u) now) (uops_of u r)). reflexivity.
+Qed.
+
+(* a cleanup that drops idle entries (lock-out over, last check older than the spacing) restarts
+   the count: six evaluated failures in 12 s and no lock-out; and the lock-out after sitting the
+   first one out is again one hour *)
+Definition purge_hist1 : list op :=
+  [Att (1000 * SEC) NoMatch; Att (1002 * SEC) NoMatch; Att (1004 * SEC) NoMatch; Att (1006 * SEC) NoMatch;
+   Cleanup (1009 * SEC); Att (1010 * SEC) NoMatch; Att (1012 * SEC) NoMatch].
+Lemma purge_idle_no_lock :
+  let r := run_ops k_prop true purge_idle rl0 purge_hist1 in
+  snd r = [Some EvalFail; Some EvalFail; Some EvalFail; Some EvalFail; None; Some EvalFail; Some EvalFail] /\
+  streak (ghost_run k_prop ghost0 purge_hist1 (snd r)) = 6 /\
+  snd (run_ops k_prop true purge_never rl0 purge_hist1)
+   = [Some EvalFail; Some EvalFail; Some EvalFail; Some EvalFail; None; Some EvalFail; Some RefusedLockout].
+Proof. vm_compute. auto. Qed.
